@@ -2,6 +2,7 @@ package interp
 
 // A frozen clock for code that reads time.Now directly (standard library: no
 // //verif:stub trampoline possible; native replay reads the real clock).
+// Opt-in: "execute": ["clock:frozen"] in harness.json.
 // Harnesses therefore must not depend on the absolute instant: they derive
 // every time stamp they need from their own time.Now() reading, which makes
 // the two worlds agree as long as the code's readings fall into the same
@@ -23,6 +24,16 @@ const unixToInternal = (1969*365 + 1969/4 - 1969/100 + 1969/400) * 86400
 
 func init() {
 	reg("time.Now", func(in *Interp, fn *ssa.Function, args []Value) Value {
+		frozen := false
+		for _, e := range in.Cfg.Execute {
+			if e == "clock:frozen" {
+				frozen = true
+			}
+		}
+		if !frozen {
+			// a frozen clock is a modelling assumption: it must be asked for
+			panic(in.inconclusive("unmodelled call: time.Now (stub a repository-level clock seam, or add \"clock:frozen\" to \"execute\" in harness.json for a clock that stands still)"))
+		}
 		return StructV{[]Value{term.BVC(64, 0), term.BVC(64, uint64(fakeNowUnix+unixToInternal)), Ptr{}}}
 	})
 	hostTime := func(in *Interp, v Value) time.Time {
